@@ -190,7 +190,8 @@ class PDFXRef(PDFBaseXRef):
     def load_trailer(self, parser: PDFParser) -> None:
         try:
             (_, kwd) = parser.nexttoken()
-            assert kwd is KWD(b"trailer"), str(kwd)
+            if kwd is not KWD(b"trailer"):
+                raise PDFNoValidXRef("Trailer not found: %r" % (kwd,))
             (_, dic) = parser.nextobject()
         except PSEOF:
             x = parser.pop(1)
